@@ -60,6 +60,8 @@ type monState struct {
 	lastSeen     map[string]*JobSnap // last API report of every job ever seen
 	snapAtSave   map[int]*Snap       // handed-save index -> API snapshot at the instant the snapshot was built
 	lastChangeAt time.Duration       // fake time of the last step that changed the reported state
+	liveExec      map[string]int     // job -> scheduler runs begun and not yet completed
+	execPipeline  map[string]string  // job -> pipeline, as known when its execution began
 	stableChecked int                // completed saves already checked by checkSavedDataStable
 	initialLoaded string             // canonical form of the snapshot the current world started from
 }
@@ -69,7 +71,8 @@ func newMonState(run *Run) *monState {
 		startStep: map[string]int{}, startAt: map[string]time.Duration{}, defChanged: map[string]int{},
 		removed: map[string]int{}, firstFail: map[string]int{}, taskOrderByDef: map[string]string{},
 		worldOfJob: map[string]int{}, forcedCancel: map[string]bool{}, undefinedAt: map[string]int{},
-		lastSeen: map[string]*JobSnap{}, snapAtSave: map[int]*Snap{}, initialLoaded: "[]"}
+		lastSeen: map[string]*JobSnap{}, snapAtSave: map[int]*Snap{}, initialLoaded: "[]",
+		liveExec: map[string]int{}, execPipeline: map[string]string{}}
 }
 
 func (m *monState) pipelineOf(job string) string {
@@ -231,9 +234,19 @@ func (m *monState) onStep(si *StepInfo, pre, post *Snap, evs []Event) {
 	}
 
 	// --- stub events
+	// (a scheduler run has ended when its goroutine reaches JobCompleted; what that step starts comes after)
+	if si.Point == "JobCompleted" {
+		if i := strings.Index(si.Name, ":"); i > 0 {
+			job := strings.SplitN(si.Name[i+1:], "@", 2)[0]
+			if m.liveExec[job] > 0 {
+				m.liveExec[job]--
+			}
+		}
+	}
 	for _, e := range evs {
 		m.checkEvent(si, e, pre, post)
 	}
+
 
 	// --- invariants on every state
 	m.checkInvariants(si, pre, post)
@@ -304,13 +317,6 @@ func (m *monState) checkSchedule(si *StepInfo, res *OpResult, pre, post *Snap) {
 		expect = "shuttingdown"
 	case def == nil:
 		expect = "undefined"
-	case m.undefinedAt[P] > 0:
-		// the pipeline was removed by a reload and defined again: jobs purged meanwhile are no longer reported but
-		// may still occupy the runner (DESIGN §13, "worth knowing"); the table cannot be evaluated on reported state
-		if res.Job != "" {
-			return
-		}
-		return
 	default:
 		running := pre.running(P)
 		waiting := pre.waiting(P)
@@ -505,6 +511,25 @@ func (m *monState) checkEvent(si *StepInfo, e Event, pre, post *Snap) {
 	case "exec-begin":
 		if j != nil && len(j.Tasks) >= 2 {
 			run.probe("multi_task_job_ran")
+		}
+		// C01 r4: executions that are really in progress (begun and not yet handed to JobCompleted), counted from the
+		// task runner's side, so that a job the API no longer reports still counts
+		if pl := m.pipelineOfExec(e.Job, post); pl != "" {
+			m.execPipeline[e.Job] = pl
+			live := 0
+			var names []string
+			for job, n := range m.liveExec {
+				if n > 0 && m.execPipeline[job] == pl {
+					live += n
+					names = append(names, job)
+				}
+			}
+			live++
+			m.liveExec[e.Job]++
+			if def := run.cur.defs.pipe(pl); def != nil && live > def.Concurrency {
+				sort.Strings(names)
+				run.violate("C01", "r4", "step %d (%s): job %s begins to execute while %v of pipeline %s are still executing (their scheduler runs have not ended): %d executions, limit %d", si.N, si.Name, e.Job, names, pl, live, def.Concurrency)
+			}
 		}
 		n := len(m.events(e.Job, "exec-begin"))
 		if n > 1 {
@@ -1266,4 +1291,18 @@ func graphString(p *PipeS) string {
 		parts = append(parts, t.Name+"<-["+strings.Join(t.DependsOn, ",")+"]")
 	}
 	return strings.Join(parts, " ")
+}
+
+
+func (m *monState) pipelineOfExec(job string, post *Snap) string {
+	if a := m.acc[job]; a != nil {
+		return a.Pipeline
+	}
+	if j := post.Jobs[job]; j != nil {
+		return j.Pipeline
+	}
+	if j := m.lastSeen[job]; j != nil {
+		return j.Pipeline
+	}
+	return ""
 }
